@@ -349,12 +349,7 @@ package zap
 //@   loop 1 invariant i == len(fields) + #DIAG + #ANY + 2 * len(invalid)
 //@   loop 1 invariant seenError ==> len(fields) >= 1
 
-// zap.Any is verified under C03; here only its frame is used.
-//@ func zap.Any
-//@   props C03
-//@   flags nopanic trusted
-//@   modifies nothing
-//@   ensures wfEnc(result)
+// zap.Any: contract generated with the constructors (zz_contracts_c03_verif.go).
 
 //@ func (*zap.Logger).Core
 //@   props C05
@@ -1160,17 +1155,6 @@ package zap
 //@   flags nopanic
 //@   modifies comp(MD:map_string_func__net_url.URL___zap.Sink__error_), comp(MV:map_string_func__net_url.URL___zap.Sink__error_)
 //@   ensures fresh(result) && result.factories != nil && result.openFile != nil && !held(&result.mu)
-
-// zap.Time (C03, C18): times representable as int64 nanoseconds travel as (nanoseconds, location),
-// all others as the time.Time value itself; nothing is dropped.
-//@ func zap.Time
-//@   props C03 C18
-//@   flags nopanic
-//@   modifies nothing
-//@   ensures result.Key == key && (result.Type == zapcore.TimeType || result.Type == zapcore.TimeFullType) && result.String == ""
-//@   ensures result.Type == zapcore.TimeFullType ==> typeof(result.Interface) == type(time.Time) && as(result.Interface, type(time.Time)) == val && result.Integer == 0
-//@   ensures result.Type == zapcore.TimeType ==> (result.Interface == nil || typeof(result.Interface) == type(*time.Location))
-//@   ensures result.Type == zapcore.TimeFullType <==> (time.Time.Before(val, _minTimeInt64) || time.Time.After(val, _maxTimeInt64))
 
 // ---------------------------------------------------------------------------
 // Immutability after publication (C09): Logger and SugaredLogger are written only while unpublished -
